@@ -161,7 +161,7 @@ func execG(twice bool) func(t *testing.T, raw json.RawMessage) *sim.Outcome {
 
 // ---- C04: single-fault enumeration ----------------------------------------
 
-var enumAgentFaults = append(append([]string(nil), refagent.AllFaults...), refagent.FaultFailSame)
+var enumAgentFaults = append(append([]string(nil), refagent.AllFaults...), refagent.FaultFailSame, refagent.FaultCloseLost)
 
 func execEnum(t *testing.T, p *GPlan) *sim.Outcome {
 	o := &sim.Outcome{}
